@@ -14,7 +14,7 @@ ASSUME = [common.TRUSTED, "complementing every byte of a region exposes any byte
           "options/properties mappings and RouterInfo/RouterAddress are outside the property's list and are not observed (LeaseSet2/MetaLeaseSet are observed through their identity, key, lease, offline and signature parts)"]
 META = {
     "level": "model_checking",
-    "technique": "state machine of buffer regions / copied-or-aliased fields model-checked by TLC (MC_Alias, with an aliased-field negative control); TLC-generated overwrite histories replayed into the real parsers; stateful trace validation (first observation kept in a spec variable) of every later observation",
+    "technique": "state machine of buffer regions / copied-or-aliased fields model-checked by TLC (MC_Alias, with an aliased-field negative control); TLC-generated overwrite histories replayed into the real parsers; stateful trace validation (first observation kept in a spec variable) of every later observation; heap machine MC_Fresh (negative controls: append onto a view of the input, recycled buffer handed out) sampled by edited struct copies of parsed values",
     "text": ("The judged predicate is an action property over the session: no Scribble/ScribbleReturned step changes a later observation. TLC "
              "validates every recorded session statefully. Every key type and every region of every listed structure is overwritten at least "
              "once (whole buffer and region by region), so a field that still points into the input shows as a changed observation naming the "
@@ -24,6 +24,8 @@ META = {
 
 
 def check(run):
+    # who owns the memory behind a result: the machine behind the kept-result chains, the "again" twins and the edited struct copies
+    common.mc_fresh(run, controls=("onto-field", "pool"))
     run.mc("MC_Alias", consts={"AliasedFields": "@{}", "MaxWrites": 3}, invariants=["NoSharing"], tag="MC_Alias_copied", workers=4)
     run.mc("MC_Alias", consts={"AliasedFields": '@{"spk"}', "MaxWrites": 2}, invariants=["NoSharing"], tag="MC_Alias_spk_aliased",
            expect_violation="NoSharing", workers=1)
